@@ -132,6 +132,9 @@ func presetFor(c *Ctx, id string, i int) *HistOpts {
 			}
 		case "C10":
 			sc = append(sc, scenExitRestake(int64(3+rng.Intn(6))), scenJailAndEvidence(int64(6+rng.Intn(6))))
+			if i%4 == 0 {
+				sc = append(sc, scenParamChange(int64(3+rng.Intn(4)), "maxValidatorCnt")) // the limit drops below the current set (restarts follow parameter changes)
+			}
 		case "C13":
 			sc = append(sc, scenForcedRelease(int64(4+rng.Intn(8))), scenJailAndEvidence(int64(8+rng.Intn(6))), scenParamChange(int64(3+rng.Intn(4)), "rewardPerPower"))
 		case "C14":
